@@ -2,6 +2,12 @@
 From Coq Require Import Uint63.
 From VLib Require Import CaseLib.
 From C10 Require Import Model ModelMeta Spec.
+(* gen-* cases (validation of the translator go2coq) *)
+From VLib Require GoSem.
+From C10 Require GenCase.
+Notation GVal := GoSem.GVal.
+Notation GPanic := GoSem.GPanic.
+Notation GFuel := GoSem.GFuel.
 
 (* bytes are written in the case files as primitive 63-bit integers 0x01 b1 .. bk (k <= 7): lists of
    N numerals, string literals and big numerals all elaborate too slowly for thousands of bodies.
@@ -64,7 +70,10 @@ Inductive case :=
    while others are processed completely); every component is the observation of one request, its
    payload read when ITS StoreDocuments call returns *)
 | CHist (l : list case)
-| CBulk (brk eager : bool) (B : nat) (now drift fdrift : Z) (body : list N) (tbl : list (list N * docinfo)) (r : impl).
+| CBulk (brk eager : bool) (B : nat) (now drift fdrift : Z) (body : list N) (tbl : list (list N * docinfo)) (r : impl)
+(* gen-<func>: the REAL Go function number fn (GenCase.gen_eval) was called on args and returned impl (or
+   panicked); the model side is the definition GENERATED from the Go source by go2coq (Gen.v) *)
+| CGen (fn : N) (args : list (list Z)) (impl : GoSem.gres).
 
 Definition stored_eqb (a b : list N * (Z * nat)) : bool :=
   bytes_eqb (fst a) (fst b) && Z.eqb (fst (snd a)) (fst (snd b)) && Nat.eqb (snd (snd a)) (snd (snd b)).
@@ -76,6 +85,7 @@ Definition info_of (tbl : list (list N * docinfo)) (d : list N) : docinfo :=
 Definition case_agrees1 (c : case) : bool :=
   match c with
   | CHist _ => true
+  | CGen fn args impl => GoSem.gres_eqb (GenCase.gen_eval fn args) impl
   | CMeta m bytes un => bytes_eqb (marshal_meta m) bytes && uclass_eqb (unmarshal_meta bytes) un
   | CMetaBytes b un => uclass_eqb (unmarshal_meta b) un
   | CMetaPayload payload ms =>
@@ -107,6 +117,7 @@ Definition case_agrees (c : case) : bool :=
 Definition case_spec_ok1 (c : case) : bool :=
   match c with
   | CHist _ => true
+  | CGen _ _ _ => true   (* translator validation: correspondence only *)
   | CMeta m _ un => match un with KOk m' => meta_eqb m m' | _ => false end    (* what was written is read back *)
   | CMetaBytes _ _ => true
   | CMetaPayload _ _ => true
